@@ -245,7 +245,7 @@ def c08(ctx, rep):
     c18(ctx, sub, with_k3=False)
     for o in sub.obligations:
         cn = o["clause"].split(".", 1)[1]
-        if cn in ("decode-prelude", "decode-row", "decode-chain", "valid-alphabet", "valid-min-length", "validated-before-tables", "validated-before-indexing", "refusal", "gap", "gap-decode-value", "gap-decode-guard", "alphabet-distinct", "alpha-num-inverse", "extra-total", "weights-mixed-radix", "weights-cover-bytes", "encode-greedy", "encode-ring", "encode-row", "encode-chain", "encode-prefix", "encode-all-chars", "decode-result"):
+        if cn in ("decode-prelude", "decode-row", "decode-chain", "decode-groups-complete", "valid-alphabet", "valid-min-length", "validated-before-tables", "validated-before-indexing", "refusal", "gap", "gap-decode-value", "gap-decode-guard", "alphabet-distinct", "alpha-num-inverse", "extra-total", "weights-mixed-radix", "weights-cover-bytes", "encode-greedy", "encode-ring", "encode-row", "encode-chain", "encode-prefix", "encode-all-chars", "decode-result"):
             rep.ob("C08.codec." + cn, o["construct"], o["ok"], o["detail"], o["where"], o.get("witness"), key="C08.codec.%s|%s" % (cn, o["construct"]))
 
 
